@@ -77,7 +77,7 @@ class QuadricTensor(ProjectiveTensor, ABC):
             matrix = matrix.array if isinstance(matrix, Tensor) else np.asarray(matrix)
             w = np.abs(np.linalg.eigvalsh(matrix))
             pseudo_det = np.prod(np.where(w > EQ_TOL_ABS, w, 1), axis=-1, keepdims=True)
-            matrix = matrix / (pseudo_det ** (1 / matrix.shape[-1]))
+            matrix = matrix / (pseudo_det ** (1 / matrix.shape[-1]))[..., None]
             kwargs["copy"] = False
 
         if not is_dual:
